@@ -14,7 +14,9 @@ NAMES = ["a", "B", "b", "A1", "a10", "a2", "Z", "_x", "ä", "é.txt", "file.txt"
          "9", ".hidden", "a.b", "a-b", "a b", "Ab", "aB", "ß", "zz", "README", "readme",
          "data.json", "x1", "x10", "x2",
          # decomposed (NFD) spellings: the tree must carry the name the directory has
-         "e\u0301", "cafe\u0301.txt", "a\u0308", "caff.txt", "cafz.txt"]
+         "e\u0301", "cafe\u0301.txt", "a\u0308", "caff.txt", "cafz.txt",
+         # sort-sensitive against a rendering of the entry (quotes, blanks, punctuation)
+         "it's", "a!", "a'b", "a&b", "__init__.py"]
 
 
 def draw_dir(rng, depth=0, budget=None):
@@ -31,7 +33,10 @@ def draw_dir(rng, depth=0, budget=None):
             out[name] = ("d", draw_dir(rng, depth + 1, budget) if rng.random() < 0.8 else {})
         else:
             size = rng.choice([0, 0, 1, 13, 100, 4096, 10000, rng.randint(0, 10000)])
-            mtime = 1_600_000_000 + rng.randint(0, 10_000_000) + rng.choice([0.0, 0.5, 0.25, 0.123])
+            # a few shared whole seconds so that equal (name, size, second) with different
+            # fractions occur in different folders
+            mtime = 1_600_000_000 + rng.choice([0, 0, 1, 2, 86400, rng.randint(0, 10_000_000)]) \
+                + rng.choice([0.0, 0.5, 0.25, 0.123])
             out[name] = ("f", size, mtime)
     return out
 
